@@ -454,6 +454,18 @@ func (x *Exec) static(st *State, fn *ssa.Function, c *ssa.CallCommon, args []SVa
 		st.assume(not(eq(bg, "nil"))) // assumed contract of package context: Background and TODO are never nil
 		ret(SVal{K: KU, T: bg, GoT: fn.Signature.Results().At(0).Type(), Src: "context." + name})
 		return
+	case pkg == "context" && (name == "WithTimeout" || name == "WithDeadline" || name == "WithCancel") && fn.Signature.Results().Len() == 2:
+		// assumed contract of package context (T4): a derived, non-nil context, a function of the parent (and the duration / deadline)
+		var ats, asorts []string
+		for _, a := range args {
+			ats = append(ats, x.termOf(st, a))
+			asorts = append(asorts, x.sortOfVal(a))
+		}
+		t := x.D.app("ctx_"+name, ats, asorts, "U")
+		st.assume(not(eq(t, "nil")))
+		cancel := x.symbolic(st, x.D.fresh("cancel", "U")+"f", fn.Signature.Results().At(1).Type())
+		ret(SVal{K: KU, T: t, GoT: fn.Signature.Results().At(0).Type()}, cancel)
+		return
 	case pkg == "context" && name == "WithValue":
 		t := x.D.app("ctx_WithValue", []string{x.termOf(st, args[0]), x.termOf(st, args[1]), x.termOf(st, args[2])}, []string{"U", "U", "U"}, "U")
 		st.assume(not(eq(t, "nil")))
